@@ -485,7 +485,7 @@ def parse_violation(out):
 
 
 def world_stage(run, name, driver, spec, cfg, extra=None, slim=("id", "policy", "tasks", "supply"), env=None,
-                timeout=7000, witness=None, max_rounds=3, profile="dev", workers=None):
+                timeout=7000, witness=None, max_rounds=3, profile="dev", workers=None, chunk=1200):
     """driver -> batch of systems with claims -> TLC explores the world model.
     witness: None, or function(record) -> set of expected witness keys (strings "id task")."""
     wd = run.sub(name)
@@ -498,46 +498,50 @@ def world_stage(run, name, driver, spec, cfg, extra=None, slim=("id", "policy", 
         run.count({k: r[k] for k in slim if k in r}, bool(r.get("nontrivial", True)))
     for r in recs[:: max(1, len(recs) // 3)][:3]:
         run.sample({k: r[k] for k in ("id", "policy", "variant", "tasks", "supply") if k in r})
-    remaining = list(recs)
     witnessed = set()
     explored = 0
-    for rnd in range(max_rounds):
-        batch = os.path.join(wd, "tlc-batch-%d.ndjson" % rnd)
-        with open(batch, "w") as f:
-            for r in remaining:
-                sl = {k: r[k] for k in slim if k in r}
-                if isinstance(sl.get("supply"), dict) and sl["supply"].get("k") == "periodic":
-                    sl["supply"] = dict(sl["supply"], D=sl["supply"]["P"])     # periodic = deadline equal to the period
-                f.write(json.dumps(sl) + "\n")
-        e = {"BATCH": batch, "TRACKFIN": "1" if witness else "0"}
-        if env:
-            e.update(env)
-        rc, out = tlc_mc(os.path.join(SPEC, "mc"), spec, cfg, wd, "%s-%d" % (name, rnd), timeout=timeout, env_extra=e,
-                         workers=workers, coverage=False)
-        gen, dist = parse_states(out)
-        run.cov["states"] += dist
-        run.cov["transitions"] += gen
-        for ln in out.splitlines():
-            m = re.match(r'^"?WITNESS (\d+) (\d+)"?$', ln.strip())
-            if m:
-                witnessed.add("%s %s" % (m.group(1), m.group(2)))
-        v = parse_violation(out)
-        if v is None:
-            if "Model checking completed. No error has been found." not in out:
-                raise ToolError("TLC failed on %s (rc=%d):\n%s" % (spec, rc, out[-3000:]))
-            explored = len(remaining)
-            break
-        inv, ci, trace = v
-        if ci is None or ci < 1 or ci > len(remaining):
-            raise ToolError("cannot attribute TLC violation:\n" + trace[-3000:])
-        bad = remaining.pop(ci - 1)
-        run.fail(dict(stage=name, op=bad.get("policy", "") + "_" + bad.get("variant", ""), check=inv, record=bad,
-                      detail="TLC counterexample (schedule) in replay file", trace=trace,
-                      tags=bad.get("tags", [])))
-        if not remaining:
-            break
-    else:
-        log("more than %d violating systems; the rest of the batch was not explored" % max_rounds)
+    # large batches are explored in chunks: one TLC run over several hundred million states ends up with a
+    # multi-gigabyte disk queue (and TLC 1.8's DiskStateQueue was seen to deadlock there); chunks keep each run small
+    chunks = [recs[i:i + chunk] for i in range(0, len(recs), chunk)]
+    for cno, crecs in enumerate(chunks):
+        remaining = list(crecs)
+        for rnd in range(max_rounds):
+            batch = os.path.join(wd, "tlc-batch-%d-%d.ndjson" % (cno, rnd))
+            with open(batch, "w") as f:
+                for r in remaining:
+                    sl = {k: r[k] for k in slim if k in r}
+                    if isinstance(sl.get("supply"), dict) and sl["supply"].get("k") == "periodic":
+                        sl["supply"] = dict(sl["supply"], D=sl["supply"]["P"])     # periodic = deadline equal to the period
+                    f.write(json.dumps(sl) + "\n")
+            e = {"BATCH": batch, "TRACKFIN": "1" if witness else "0"}
+            if env:
+                e.update(env)
+            rc, out = tlc_mc(os.path.join(SPEC, "mc"), spec, cfg, wd, "%s-%d-%d" % (name, cno, rnd), timeout=timeout,
+                             env_extra=e, workers=workers, coverage=False)
+            gen, dist = parse_states(out)
+            run.cov["states"] += dist
+            run.cov["transitions"] += gen
+            for ln in out.splitlines():
+                m = re.match(r'^"?WITNESS (\d+) (\d+)"?$', ln.strip())
+                if m:
+                    witnessed.add("%s %s" % (m.group(1), m.group(2)))
+            v = parse_violation(out)
+            if v is None:
+                if "Model checking completed. No error has been found." not in out:
+                    raise ToolError("TLC failed on %s (rc=%d):\n%s" % (spec, rc, out[-3000:]))
+                explored += len(remaining)
+                break
+            inv, ci, trace = v
+            if ci is None or ci < 1 or ci > len(remaining):
+                raise ToolError("cannot attribute TLC violation:\n" + trace[-3000:])
+            bad = remaining.pop(ci - 1)
+            run.fail(dict(stage=name, op=bad.get("policy", "") + "_" + bad.get("variant", ""), check=inv, record=bad,
+                          detail="TLC counterexample (schedule) in replay file", trace=trace,
+                          tags=bad.get("tags", [])))
+            if not remaining:
+                break
+        else:
+            log("more than %d violating systems in one chunk; the rest of that chunk was not explored" % max_rounds)
     run.cov["traces_validated_against_impl"] += len(recs)
     if run.tier == "thorough":
         # vacuity guard (guidance: -coverage 1): per-action counts on a prefix of the batch
@@ -591,6 +595,135 @@ def mc_stage(run, name, spec, cfg, env=None, timeout=1200, workers=None, extra_a
                       detail="the specification itself violates its design-level property", trace=(v[2] if v else out[-4000:])))
     run.stage(name, kind="spec-model-checking", spec=spec, states=dist, ok=ok)
     return out
+
+
+
+def _big_clauses(e):
+    """The closed-form relations one recorded large-magnitude event has to satisfy, as TLA+ conjuncts over integer
+    literals (spec/apalache/ClosedForms.tla); a call that did not return is the clause FALSE."""
+    i, o = e["in"], e["out"]
+    cs = []
+    if e["op"] == "big_supply":
+        if "sbf" not in o:
+            return ["FALSE"]
+        sp = i["supply"]
+        if sp["k"] == "dedicated":
+            Q = D = P = 1
+        else:
+            Q, P = sp["Q"], sp["P"]
+            D = sp.get("D", P)
+        for x, v in zip(i["xs"], o["sbf"]):
+            cs.append("Sbf(%d, %d, %d, %d) = %d" % (Q, D, P, x, v))
+        for dm, t in zip(i["ds"], o["st"]):
+            cs.append("IsLeast(%d, %d, %d, %d, %d)" % (Q, D, P, t, dm))
+        if "std" in o:
+            for t, td in zip(o["st"], o["std"]):
+                cs.append("%d = %d" % (t, td))
+        if len(o["sbf"]) != len(i["xs"]) or len(o["st"]) != len(i["ds"]):
+            cs.append("FALSE")
+    elif e["op"] == "big_eta":
+        if "eta" not in o:
+            return ["FALSE"]
+        T, J, C = i["T"], i["J"], i["C"]
+        for x, v in zip(i["xs"], o["eta"]):
+            cs.append("Eta(%d, %d, %d) = %d" % (T, J, x, v))
+        for x, v in zip(i["xs"], o["sn"]):
+            cs.append("%d * Eta(%d, %d, %d) = %d" % (C, T, J, x, v))
+        st = o["steps"]
+        cs.append("%d = %d" % (len(st), i["nsteps"]))
+        if st:
+            cs.append("%d = 1" % st[0])
+        for a, b in zip(st, st[1:]):
+            cs.append("NextStep(%d, %d, %d) = %d" % (T, J, a, b))
+    else:
+        raise ToolError("unknown large-magnitude op %s" % e["op"])
+    return cs
+
+
+def big_check(wd, recs, chunk=60, timeout=1500, max_rounds=3):
+    """Apalache decides the closed-form relations of every record; returns (indices of refuted records, number of
+    relations).  One state variable i ranges over the records of a chunk, the invariant is (i = n) => Clause_n, so
+    a counterexample names a record; that record is then taken out and the chunk is checked again."""
+    shutil.copy(os.path.join(SPEC, "apalache", "ClosedForms.tla"), wd)
+    nclauses = 0
+    bad_all = []
+    for cno in range(0, len(recs), chunk):
+        part = recs[cno:cno + chunk]
+        live = list(range(len(part)))
+        for rnd in range(max_rounds + 1):
+            mod = "BigTrace%d" % (cno // chunk)
+            lines = ["---- MODULE %s ----" % mod, "EXTENDS ClosedForms", "VARIABLES", "    \\* @type: Int;", "    i",
+                     "Init == i \\in 1..%d" % len(part), "Next == UNCHANGED i"]
+            for n, r in enumerate(part):
+                cs = _big_clauses(r) if n in live else ["TRUE"]
+                nclauses += len(cs) if rnd == 0 else 0
+                lines.append("C%d ==\n    /\\ " % (n + 1) + "\n    /\\ ".join(cs))
+            # groups of ten keep the conjunction shallow (Apalache's passes recurse over it)
+            groups = []
+            for g in range(0, len(part), 10):
+                groups.append("G%d" % (g // 10))
+                lines.append("G%d ==\n    " % (g // 10) +
+                             "\n    ".join("/\\ (i = %d => C%d)" % (n + 1, n + 1) for n in range(g, min(g + 10, len(part)))))
+            lines.append("Inv == " + " /\\ ".join(groups))
+            lines.append("====")
+            with open(os.path.join(wd, mod + ".tla"), "w") as f:
+                f.write("\n".join(lines) + "\n")
+            outdir = os.path.join(wd, "apalache-out")
+            shutil.rmtree(outdir, ignore_errors=True)
+            env = dict(os.environ, JVM_ARGS="-Xss512m -Xmx4g")
+            p = subprocess.run(["timeout", str(timeout), "apalache-mc", "check", "--length=0", "--inv=Inv",
+                                "--out-dir=" + outdir, mod + ".tla"], cwd=wd, env=env,
+                               stdout=subprocess.PIPE, stderr=subprocess.STDOUT, text=True)
+            out = p.stdout
+            if p.returncode == 124:
+                raise ToolError("apalache timed out on %s" % mod)
+            if "The outcome is: NoError" in out:
+                break
+            if "The outcome is: Error" not in out:
+                raise ToolError("apalache failed on %s:\n%s" % (mod, out[-3000:]))
+            bad = None
+            for root, _, files in os.walk(outdir):
+                for fn in files:
+                    if fn.startswith("violation") and fn.endswith(".tla"):
+                        m = re.search(r"State0 ==\s*i = (\d+)", open(os.path.join(root, fn)).read())
+                        if m:
+                            bad = int(m.group(1)) - 1
+            if bad is None or bad not in live:
+                raise ToolError("cannot attribute the Apalache counterexample:\n" + out[-3000:])
+            live.remove(bad)
+            bad_all.append(cno + bad)
+            if rnd == max_rounds:
+                log("more than %d violating records in one chunk; the rest of it was not examined" % max_rounds)
+                break
+        shutil.rmtree(outdir, ignore_errors=True)
+    return bad_all, nclauses
+
+
+def bigtrace_stage(run, name, driver, extra=None, chunk=60, timeout=1500, max_rounds=3):
+    """Large-magnitude trace validation: values recorded from the library at arguments far beyond 2^32 / 2^53
+    are written into generated TLA+ modules as integer literals and Apalache (unbounded integers, Z3) checks the
+    closed-form relations of ClosedForms.tla for every record (big_check)."""
+    wd = run.sub(name)
+    path = os.path.join(wd, "events.ndjson")
+    run_driver(driver, path, run.tier, run.seed, extra=extra)
+    recs = read_events(path)
+    if not recs:
+        raise ToolError("driver %s produced no events" % driver)
+    for r in recs:
+        run.count(r["in"], True)
+    for r in recs[:2]:
+        run.sample({"op": r["op"], "in": r["in"], "out": r["out"]})
+    bad, nclauses = big_check(wd, recs, chunk=chunk, timeout=timeout, max_rounds=max_rounds)
+    for b in bad:
+        r = recs[b]
+        run.fail(dict(stage=name, op=r["op"], check="closed_form_at_large_magnitude", record=r,
+                      detail="Apalache refutes: " + " /\\ ".join(_big_clauses(r))[:1500], tags=[]))
+    run.cov["traces_validated_against_impl"] += len(recs)
+    run.cov.setdefault("obligations", 0)
+    run.cov["obligations"] += nclauses
+    run.stage(name, kind="large-magnitude-trace-validation", tool="apalache-mc 0.58 (Z3)", driver=driver, records=len(recs),
+              relations=nclauses, refuted=len(bad))
+    return recs
 
 
 def apalache_stage(run, name, spec, invariants, timeout=900):
